@@ -182,6 +182,9 @@ func checkC17(c *core.Ctx) {
 		c17RunChunk(c, sc, tiny, fc, foiPath, cc, used, accepted, &mu)
 		c.Set("scale_family_programs", len(cc))
 	}
+	if !c.Expired() && !c.TooManyViolations() {
+		c17TypeGroups(c, sc, tiny, fc, foiPath)
+	}
 	c.Set("by_construct_generated", used)
 	c.Set("by_construct_accepted_by_tinyfo", accepted)
 	var empty []string
